@@ -212,8 +212,31 @@ func groupCases[P curves.Point[P, F, S], F algebra.FieldElement[F], S algebra.Pr
 		x := must(sigor.ComposeStatements(st...))
 		x2 := must(sigor.ComposeStatements(st2...))
 		c := mkCase("or3schnorr/"+gname, proto, rec, x, sigor.NewWitness(schnorr.NewWitness(w)), x2, 16)
+		qOrder := new(big.Int).SetBytes(curve.Order().Bytes())
+		c.orForge = mkOrForge(base, proto, rec, n, qOrder, func() *schnorr.Statement[P, S] { return schnorr.NewStatement(must(curve.Random(r))) })
 		cases = append(cases, c)
 		lins = append(lins, orLin(gname, curve, base, proto, rec, g, b, w, others, r))
+	}
+	// --- OR of two Okamoto statements, one witness (Fiat–Shamir only)
+	{
+		rec := newRec()
+		hgen := g.ScalarOp(must(field.Random(r)))
+		base := must(okamoto.NewProtocol([]P{g, hgen}, rec))
+		proto := must(sigor.Compose(base, 2, rec))
+		w1, w2 := pickScalar(r, field, variant), must(field.Random(r))
+		b := variant % 2
+		st := make([]*okamoto.Statement[P, S], 2)
+		st[b] = must(okamoto.NewStatement(g.ScalarOp(w1).Op(hgen.ScalarOp(w2))))
+		st[1-b] = must(okamoto.NewStatement(must(curve.Random(r))))
+		st2 := []*okamoto.Statement[P, S]{st[0], st[1]}
+		st2[1-b] = must(okamoto.NewStatement(must(curve.Random(r))))
+		x := must(sigor.ComposeStatements(st...))
+		x2 := must(sigor.ComposeStatements(st2...))
+		c := mkCase("or2okamoto/"+gname, proto, rec, x, sigor.NewWitness(must(okamoto.NewWitness(w1, w2))), x2, 16)
+		c.compilers = []compiler.Name{fiatshamir.Name}
+		qOrder := new(big.Int).SetBytes(curve.Order().Bytes())
+		c.orForge = mkOrForge(base, proto, rec, 2, qOrder, func() *okamoto.Statement[P, S] { return must(okamoto.NewStatement(must(curve.Random(r)))) })
+		cases = append(cases, c)
 	}
 	return cases, lins
 }
